@@ -673,7 +673,24 @@ func runExplicit(k *vf.Case) {
 	cum := sdkmetric.NewManualReader(sdkmetric.WithAggregationSelector(sel))
 	del := sdkmetric.NewManualReader(sdkmetric.WithAggregationSelector(sel),
 		sdkmetric.WithTemporalitySelector(func(sdkmetric.InstrumentKind) metricdata.Temporality { return metricdata.DeltaTemporality }))
-	mp := sdkmetric.NewMeterProvider(sdkmetric.WithReader(cum), sdkmetric.WithReader(del))
+	mpOpts := []sdkmetric.Option{sdkmetric.WithReader(cum), sdkmetric.WithReader(del)}
+	viaViewFunc := len(bounds) >= 2 && r.Chance(1, 4)
+	if viaViewFunc {
+		// the boundary list arrives through a view function, in some other order: the point still reports ascending
+		// bounds and bins by them
+		cum = sdkmetric.NewManualReader()
+		del = sdkmetric.NewManualReader(sdkmetric.WithTemporalitySelector(func(sdkmetric.InstrumentKind) metricdata.Temporality { return metricdata.DeltaTemporality }))
+		given := append([]float64(nil), bounds...)
+		vf.Shuffle(r, given)
+		mpOpts = []sdkmetric.Option{sdkmetric.WithReader(cum), sdkmetric.WithReader(del), sdkmetric.WithView(func(i sdkmetric.Instrument) (sdkmetric.Stream, bool) {
+			if i.Name != "h" {
+				return sdkmetric.Stream{}, false
+			}
+			return sdkmetric.Stream{Name: i.Name, Aggregation: sdkmetric.AggregationExplicitBucketHistogram{Boundaries: given, NoMinMax: noMinMax}}, true
+		})}
+		k.C.Count("explicit_sequences_with_shuffled_bounds_from_view_function", 1)
+	}
+	mp := sdkmetric.NewMeterProvider(mpOpts...)
 	m := mp.Meter("c07")
 	ctx := context.Background()
 	var rec func(v float64)
@@ -712,7 +729,7 @@ func runExplicit(k *vf.Case) {
 		}
 		vals = append(vals, v)
 	}
-	cfgStr := fmt.Sprintf("bounds=%v int=%v noMinMax=%v", bounds, intInst, noMinMax)
+	cfgStr := fmt.Sprintf("bounds=%v int=%v noMinMax=%v shuffled-through-view-function=%v", bounds, intInst, noMinMax, viaViewFunc)
 	fail := func(class, key, detail string) {
 		vs := vals
 		if len(vs) > 30 {
@@ -753,6 +770,12 @@ func runExplicit(k *vf.Case) {
 		if len(counts) != len(bounds)+1 || len(gotBounds) != len(bounds) {
 			fail("bucket-count-vs-bounds", what, fmt.Sprintf("%d counts for %d bounds", len(counts), len(gotBounds)))
 			return
+		}
+		for i := range bounds {
+			if gotBounds[i] != bounds[i] {
+				fail("reported-bounds-differ", what, fmt.Sprintf("point reports bounds %v", gotBounds))
+				return
+			}
 		}
 		want := make([]uint64, len(bounds)+1)
 		var wsumF float64
